@@ -522,7 +522,8 @@ def gen_op():
         kw = {}
         mode = draw(st.sampled_from(["qt", "qt", "from", "both", "none"]))
         if mode in ("qt", "both"):
-            kw["quantity_type"] = draw(st.one_of(qts, st.just("Q")))
+            # (also names that are categories, not quantity types: refused)
+            kw["quantity_type"] = draw(st.one_of(qts, qts, st.sampled_from(["Q", "depth", "x"])))
         if mode in ("from", "both"):
             kw["from_category"] = draw(cats)
         if draw(st.booleans()):
@@ -613,7 +614,16 @@ def run_shard(spec, ctx):
                             continue
                         kw["valid_units"] = list(own_vu)
                     named.append(["cat", nm, kw])
-            users = [["cat", "x", {"quantity_type": "L"}], ["cat", "y", {"quantity_type": "T"}], ["cat", "z", {"from_category": "L"}]]
+            # (the last four name a *category* where a quantity type is expected: refused, in every argument form)
+            users = [
+                ["cat", "x", {"quantity_type": "L"}],
+                ["cat", "y", {"quantity_type": "T"}],
+                ["cat", "z", {"from_category": "L"}],
+                ["cat", "r1", {"quantity_type": "x", "default_unit": "m"}],
+                ["cat", "r2", {"quantity_type": "x"}],
+                ["cat", "r3", {"quantity_type": "y", "valid_units": ["min"]}],
+                ["cat", "r4", {"quantity_type": "y", "valid_units": ["s"], "default_unit": "s", "default_value": 1.0}],
+            ]
             pre = [OPS[0], OPS[1], OPS[3], OPS[4]]  # m, cm | s, min
             import itertools as _it
             for a, b in _it.permutations(named, 2):
